@@ -235,8 +235,13 @@ def run(ctx):
                 except Exception:
                     pass
         others = [k for k in R.REF if k not in R.MONOTONIC]
-        for i, rnd in ctx.cases("refusal", len(others) + 3):
-            if i < len(others):
+        for i, rnd in ctx.cases("refusal", len(others) + 6):
+            if i >= len(others) + 3:
+                # terms that wrap other terms do not declare themselves monotonic, whatever they wrap
+                inner = G.build_term(fl, G.shape_term(rnd, "t", 0.0, 1.0, kind=rnd.choice(G.MONOTONIC), degenerate=False))
+                act = fl.Activated(inner, rnd.choice([1.0, 0.5]), rnd.choice([None, fl.Minimum(), fl.AlgebraicProduct()]))
+                term = [act, fl.Aggregated("agg", 0.0, 1.0, fl.Maximum(), [act]), fl.Aggregated("empty", 0.0, 1.0, fl.Maximum())][i - len(others) - 3]
+            elif i < len(others):
                 term = G.build_term(fl, G.shape_term(rnd, "t", 0.0, 1.0, kind=others[i]))
             elif i == len(others):
                 term = fl.Constant("c", 0.5)
@@ -245,17 +250,20 @@ def run(ctx):
             else:
                 term = fl.Function("f", "x * 2")
             for y in (0.5, np.array([0.25, 0.75])):
+                ctx.evaluated()
                 try:
-                    term.tsukamoto(y)
+                    z = term.tsukamoto(y)
+                    if not term.is_monotonic():
+                        ctx.violation(f"{type(term).__name__}: a term that does not declare itself monotonic does not refuse tsukamoto", {"term": str(term)}, "RuntimeError", z)
                 except RuntimeError:
-                    pass
+                    ctx.hit(f"refused:{type(term).__name__}")
                 except Exception as ex:
                     ctx.violation(f"{type(term).__name__}: refuses tsukamoto with {type(ex).__name__} instead of the documented error", {"term": type(term).__name__}, "RuntimeError", repr(ex))
         mon.check_monotone()
         probe.report(ctx)
         reach.report(ctx)
     for k in R.MONOTONIC:
-        ctx.require(f"hook:{k}.tsukamoto", f"law:monotone:{k}", "y form:column", "y form:array of one")
+        ctx.require(f"hook:{k}.tsukamoto", f"law:monotone:{k}", "y form:column", "y form:array of one", "refused:Activated", "refused:Aggregated")
     for k in ("SShape", "ZShape"):
         d = "incr" if k == "SShape" else "decr"
         ctx.require(f"piece:{k}:y<h/2:{d}", f"piece:{k}:y==h/2:{d}", f"piece:{k}:y>h/2:{d}")
